@@ -23,21 +23,37 @@ RULE_SCHED = ("each run is one seeded schedule+workload drawn from the choice ta
 
 CHECKS = {
     "C12": {
+        "claim": "seeded search over schedules of 1-4 caller tasks against a real server.Server (every mutex acquisition and channel wake-up is a schedule point) with tape-chosen policies, ack/return timings, cancellations, pipelined calls on unreturned answers and shutdown while calls run; start order, ack gating, the concurrency cap, exactly-once completion with the implementation's own result, pipelined delivery order and shutdown semantics are checked at every event and over the recorded history",
         "engine": "srvsim", "level": "exploration",
         "budget": {"quick": 25, "thorough": 600},
         "rule": RULE_SCHED,
         "faults": ["ctx_cancel", "janitor_cancel"],
     },
     "C11": {
+        "claim": "seeded search over schedules of tasks issuing pipelined calls, Future.Client requests (same path repeatedly), calls through pipelined clients, Fulfill/Reject/Join (chains up to 3) and concurrent ReleaseClients on real capnp.Promise objects; every call must be delivered exactly once to the right party or fail legitimately, resolution may not return while a delivery to the PipelineCaller is in progress, result capabilities are released exactly once, and any blocked operation is reported as a deadlock with its wait-for set",
         "engine": "promsim", "level": "exploration",
         "budget": {"quick": 25, "thorough": 600},
         "rule": RULE_SCHED,
         "faults": ["ctx_precancelled"],
     },
     "C10": {
+        "claim": "seeded search over schedules (every lock acquisition in capability.go is a schedule point) and operation sequences on shared clients, weak references and client promises, including one Client used by two tasks at once, checked against a reference-count / resolution-chain model at every hook event and at the end of the run",
         "engine": "capsim", "level": "exploration",
         "budget": {"quick": 25, "thorough": 600},
         "rule": RULE_SCHED,
         "faults": [],
     },
 }
+
+
+ENGINE_KIND = {
+    "capsim": "deterministic simulation of tasks sharing capnp.Client handles, weak refs and client promises",
+    "promsim": "deterministic simulation of pipelined calls and resolution on capnp.Promise",
+    "srvsim": "deterministic simulation of callers, implementations and shutdown of server.Server",
+}
+
+NOT_APPLICABLE = [
+    {"property_id": "C03", "reason": "pure function of the input bytes: no schedule, clock, fault, peer or history for a simulator to control; its extra reach over C04/C05 is encodings this library never produces, i.e. input generation (DESIGN.md section 5)"},
+    {"property_id": "C15", "reason": "batch code generator: schema in, text out; no concurrency, clock, I/O fault or history, and output stability depends on Go map order which no seed controls (DESIGN.md section 5)"},
+    {"property_id": "C19", "reason": "pogs Insert/Extract are stateless, single-threaded, I/O-free pure functions of (Go value, message) (DESIGN.md section 5)"},
+]
